@@ -9,7 +9,7 @@ import (
 func c21KeyLen() int {
 	max := 6
 	if zzsym.Thorough() {
-		max = 7
+		max = 6
 	}
 	return zzsym.Choice("len", max+1)
 }
